@@ -66,8 +66,26 @@ insert(void * p, size_t size)
 {
 	uint32_t i = hp(p), n;
 
-	if (nused > TSIZE / 2)
-		sim_internal("simalloc: block table full");
+	if (nused > TSIZE / 2) {
+		/* drop tombstones: re-insert the live entries */
+		static struct blk tmp[TSIZE];
+		uint32_t j, k, live = 0;
+
+		for (j = 0; j < TSIZE; j++)
+			if (tab[j].p != NULL && tab[j].p != TOMB)
+				tmp[live++] = tab[j];
+		memset(tab, 0, sizeof(tab));
+		nused = 0;
+		if (live > TSIZE / 4)
+			sim_internal("simalloc: block table full (%u live blocks)", live);
+		for (j = 0; j < live; j++) {
+			k = hp(tmp[j].p);
+			while (tab[k].p != NULL)
+				k = (k + 1) & (TSIZE - 1);
+			tab[k] = tmp[j];
+			nused++;
+		}
+	}
 	for (n = 0; n < TSIZE; n++, i = (i + 1) & (TSIZE - 1)) {
 		if (tab[i].p == NULL || tab[i].p == TOMB) {
 			if (tab[i].p == NULL)
